@@ -54,9 +54,19 @@ def case(cid, rng, name, kk, re, mix8):
         kw["mixing"] = mix8 / 8.0
     c = {"id": cid, "name": name, "family": "pcov" if pcovfam else "cur", "pcov": ("covariance" if axis == 1 else "kernel") if pcovfam else "none",
          "mix": int(mix8), "k": int(kk), "re": int(re), "A": A.astype(int).tolist(), "y": [] if yv is None else fq(yv.reshape(-1, 1)),
-         "steps": [], "final": [], "route": [], "raised": False}
+         "steps": [], "final": [], "route": [], "raised": False, "tolu": 0}
+    # the data is handed over in other units now and then (leverage scores do not depend on the unit; residuals are
+    # converted back): tiny units bring every norm close to the documented zero tolerance of the orthogonaliser
+    # (units are kept well above the estimators' ABSOLUTE numerical-rank thresholds of 1e-12 on eigenvalues)
+    scale, tol = [(1.0, None), (1.0, None), (1e3, None), (0.05, 1e-2), (0.02, 1e-3)][int(rng.integers(5))]
+    if tol is not None:
+        kw["tolerance"] = tol
+    c["tolu"] = 0 if tol is None else int(round(tol / scale * S))
+    Xin = X * scale
+    yvs = None if yv is None else yv * scale
     try:
-        obj, log = run_selector(cls, axis, X, yv, kw, nsel)
+        obj, log = run_selector(cls, axis, Xin, yvs, kw, nsel)
+        log = [(pi, R / scale, None if yc is None else yc / scale) for (pi, R, yc) in log]
     except Exception as e:  # noqa
         c["raised"] = True
         c["msg"] = "%s: %s" % (type(e).__name__, str(e)[:120])
@@ -91,7 +101,7 @@ def case(cid, rng, name, kk, re, mix8):
         lam, V = np.linalg.eigh(M)
         st["eig"] = {"V": fq(V[:, ::-1]), "lam": fq(np.maximum(lam[::-1], 0))}
         c["steps"].append(st)
-    Rf = np.array(obj.X_current_, float)
+    Rf = np.array(obj.X_current_, float) / scale
     c["final"] = fq(Rf if axis == 1 else Rf.T)
     # routes: duality (the other direction on the transposed input) and mixing = 1 => CUR
     try:
@@ -99,11 +109,11 @@ def case(cid, rng, name, kk, re, mix8):
             warnings.simplefilter("ignore")
             if not pcovfam:
                 ocls = Sm.CUR if axis == 1 else F.CUR
-                o2 = ocls(n_to_select=nsel, **kw).fit(X.T.copy())
+                o2 = ocls(n_to_select=nsel, **kw).fit(Xin.T.copy())
                 c["route"] = [int(i) + 1 for i in o2.selected_idx_]
             elif mix8 == 8:
                 ocls = F.CUR if axis == 1 else Sm.CUR
-                o2 = ocls(n_to_select=nsel, k=kk, recompute_every=re).fit(X.copy())
+                o2 = ocls(n_to_select=nsel, k=kk, recompute_every=re, **({"tolerance": kw["tolerance"]} if "tolerance" in kw else {})).fit(Xin.copy())
                 c["route"] = [int(i) + 1 for i in o2.selected_idx_]
     except Exception:
         c["route"] = [0]
@@ -116,7 +126,7 @@ def gen(args):
     return [case("c%d" % k, rng, *cfg) for k, cfg in cfgs]
 
 
-KEYS = ("id", "family", "pcov", "mix", "k", "re", "A", "y", "steps", "final", "route", "raised")
+KEYS = ("id", "family", "pcov", "mix", "k", "re", "A", "y", "steps", "final", "route", "raised", "tolu")
 
 
 def strip(c):
